@@ -34,7 +34,9 @@ def floors(m, tier):
     u, k = BUDGET[tier]
     c = m.counters
     f = {"rule evaluations": (c.get("rule_evals", 0), u * k),
-         "FindInConstants asked directly": (c.get("constants_finder_asked_directly", 0), u)}
+         "FindInConstants asked directly": (c.get("constants_finder_asked_directly", 0), u),
+         "searches on a FindInConstants over an open key": (c.get("open_constants_searches", 0), u * 2),
+         "... with a non-empty answer": (c.get("open_constants_nonempty", 0), u // 2)}
     for r in ("comma", "alias", "dstar", "filter", "literal", "match"):
         f["rule %s non-empty" % r] = (c.get("nonempty:" + r, 0), max(10, u // 4))
     return f
@@ -233,6 +235,54 @@ def add_const_finders(lab):
             lab.finders["const:" + F.key] = F
 
 
+def check_open_constants(rec, lab, case):
+    """A FindInConstants over an OPEN key (values taken from the universe + one that exists nowhere), below the path-backed level:
+    partial globs, literals and '*' on its own key must answer the constants that match, under the parents that exist (R7)."""
+    from spil import FindInConstants, FindInPaths, SpilException
+    rng = lab.rng
+    model = lab.model
+    cands = []
+    for e in lab.full:
+        t = model.natural(e)
+        if t is not None and t.nseg >= 3 and lab.vocab.info[t.name][t.nseg - 1]["open"] and t.keys[-1] != model.leaf_keys.get(model.basetype(t.name)):
+            pt = model.natural("/".join(e.split("/")[:-1]))
+            if pt is not None and lab.trees.path_of(lab.default_config, "/".join(e.split("/")[:-1]))[0] is not None:
+                cands.append(e)
+    if not cands:
+        return
+    e = rng.choice(cands)
+    t = model.natural(e)
+    key = t.keys[-1]
+    values = sorted({x.split("/")[-1] for x in cands if model.natural(x) is t})[:6] + ["nowhere"]
+    F = FindInConstants(key, values, parent_source=FindInPaths())
+    segs = e.split("/")
+    v = segs[-1]
+    for last in ("*", v, v[:1] + "*", "*" + v[-1:], "nowhere", "zz*"):
+        for parent in ("/".join(segs[:-1]), "/".join(segs[:-2] + ["*"])):
+            s = parent + "/" + last
+            if model.natural(s) is not t:
+                continue
+            rec.ev()
+            rec.count("open_constants_searches")
+            c = dict(case, finder="const_open:" + key, values=values, search=s, rule="constants")
+            try:
+                got = [str(x) for x in F.find(s, as_sid=False)]
+            except SpilException:
+                continue
+            except Exception as ex:
+                rec.violation("finder_raised", c, repr(ex))
+                continue
+            exp = lab.allmodel.ans_find(F, s)
+            if exp is None:
+                continue
+            if len(got) != len(set(got)):
+                rec.violation("duplicates", c, repr(got[:8]))
+            if set(got) != exp:
+                rec.violation("constants_finder_vs_R7", c, "missing=%r extra=%r" % (sorted(exp - set(got))[:5], sorted(set(got) - exp)[:5]))
+            elif got:
+                rec.count("open_constants_nonempty")
+
+
 def worker(args):
     from lib.findlab import Lab, filter_is_unspecified
     rec = Rec("C10")
@@ -261,6 +311,7 @@ def worker(args):
         add_const_finders(lab)
         uid = "%s-%d" % (args.get("seed"), u)
         case = {"ents": ents, "names": lab.names, "only_default": lab.only_default, "uid": uid}
+        check_open_constants(rec, lab, case)
         for k in range(args["searches"]):
             s, info = lab.search(allow_last=False)
             if filter_is_unspecified(s) or ">" in s:
